@@ -535,6 +535,16 @@ def time_newticker(eng, st, fr, args, ins):
     return eng.alloc_val(st, "time.Ticker", (ChanRef(oid), True))
 
 
+# ---- time.After: the timer may have fired whenever the code looks at its channel (a select over it and other ready cases forks)
+@intr("time.After")
+def time_after_chan(eng, st, fr, args, ins):
+    from symex import GoChan, ChanRef, st_oid
+    oid = st_oid(st)
+    st.heap[oid] = GoChan((eng.zero("time.Time"),), 1, False)
+    eng.objtype[oid] = "<-chan time.Time"
+    return ChanRef(oid)
+
+
 # ---- gin request/response (zzverif.HTTPGet / HTTPResult): a *gin.Context is a heap object (query pairs, recorded response)
 GIN_T = "github.com/gin-gonic/gin.Context"
 
